@@ -10,7 +10,9 @@ from gen_prog import ProgGen
 PROP = "C03"
 LEVEL = "other"
 MODULE = "PropC03"
-THEOREMS = ["C03_new_frame_is_fresh", "C03_new_closure_touches_nothing", "C03_assign_writes_one_slot"]
+THEOREMS = ["C03_new_frame_is_fresh", "C03_new_closure_touches_nothing", "C03_assign_writes_one_slot",
+            "C03_pure_builtin_depends_on_argument_only", "C03_compiled_builtin_call_anywhere",
+            "C03_compiled_builtin_call_any_history"]
 
 LETTERS = "abcdefghijklmnopqrstuvwxyz"
 
